@@ -7,8 +7,8 @@ cd "$WT" || exit 2
 echo "--- suite with change:"; /venv/bin/python -m pytest -q -p no:cacheprovider 2>&1 | tail -1
 run_demo() { if grep -q "def test_" demo.py 2>/dev/null && ! grep -q "__main__" demo.py; then timeout 300 /venv/bin/python -m pytest -q -p no:cacheprovider demo.py >/dev/null 2>&1; else timeout 300 /venv/bin/python demo.py >/dev/null 2>&1; fi; echo $?; }
 echo "--- demo with change (want non-zero): $(run_demo)"
-git stash -q -- goodwe; echo "--- demo without change (want 0): $(run_demo)"; git stash pop -q
 git diff -- goodwe > /tmp/seed_eval.diff
+git checkout -q -- goodwe; echo "--- demo without change (want 0): $(run_demo)"; git apply /tmp/seed_eval.diff   # (no git stash: the stash is shared between worktrees)
 if [ -n "$(git -C /repo status --porcelain -- goodwe)" ]; then echo "REPO DIRTY - abort"; exit 2; fi
 git -C /repo apply /tmp/seed_eval.diff || { echo "cannot apply"; exit 2; }
 cd /verif
